@@ -147,12 +147,20 @@ class C14(framework.PropertyCheck):
             if op == 'fold':
                 c['f'] = rng.choice(list(BINS))
                 c['acc'] = rng.choice([0, 1, 10])
+                if rng.random() < 0.3:
+                    c['f'] = 'cnt'
+                    c['xs'] = self.gen_list(rng, rng.choice(['sym', 'mixed', 'str']))
             if op in ('filter', 'partition'):
                 c['f'] = rng.choice(['pos', 'even', 'all', 'none'])
-                if rng.random() < 0.4:
+                r4 = rng.random()
+                if r4 < 0.4:
                     # elements that are lists themselves (also empty ones) are elements like any other
                     c['xs'] = self.gen_list(rng, 'nested')
                     c['f'] = rng.choice(ANYPREDS)
+                elif r4 < 0.6:
+                    # symbols are data: an element is handed to the function as it is, never looked up as a variable
+                    c['xs'] = self.gen_list(rng, rng.choice(['sym', 'mixed']))
+                    c['f'] = rng.choice(['all', 'none', 'islist'])
             if op == 'range':
                 c['args'] = rng.choice([[rng.randint(-2, 6)], [rng.randint(-3, 3), rng.randint(-3, 8)],
                                         [rng.randint(-3, 8), rng.randint(-3, 8), rng.choice([1, 2, 3, -1, -2])]])
